@@ -170,9 +170,18 @@ def run_case(case, ctx, d=None):
             shutil.rmtree(d, ignore_errors=True)
 
 
+_JSON_SAVES = [0]
+
+
 def _roundtrip_json(case, ctx, d, obj, nontriv, cell):
     from phylib.utils._misc import save_json, load_json
-    path = os.path.join(d, 'x.json')
+    # the file goes into a folder that save_json creates; every now and then the folder was removed since the last save
+    # (a cleaned-up session folder that is written again)
+    path = os.path.join(d, 'session out', 'x.json')
+    _JSON_SAVES[0] += 1
+    if _JSON_SAVES[0] % 7 == 3 and os.path.isdir(os.path.dirname(path)):
+        shutil.rmtree(os.path.dirname(path))
+        ctx.cell('json', 'folder_removed_between_saves')
     ctx.count(1, key=hkey(repr(case)), nontrivial=nontriv, cell=cell)
     r = call(save_json, path, obj)
     if not r.ok:
@@ -264,7 +273,7 @@ def _tsv(case, ctx, d):
             if rng.random() < 0.75:
                 row[f] = rand_cell(rng)
                 if isinstance(row[f], str) and case['seed'][2] % 5 == 1 and rng.random() < 0.4:
-                    row[f] = ['x\ny', 'p\n\nq', 'two\n\n\nlines', '\n'][int(rng.integers(0, 4))]       # line feeds (also empty lines) inside a cell
+                    row[f] = ['x\ny', 'p\n\nq', 'two\n\n\nlines', '\n', 'C:\\data\\rec1', 'back\\', '\\n is not a line feed'][int(rng.integers(0, 7))]       # line feeds (also empty lines) and backslashes inside a cell
         rows.append(row)
     if long_:
         rows[-1][fields[-1]] = 'late'
